@@ -13,6 +13,8 @@ def work(spec):
 def run(tier, seed):
     t0 = time.time()
     specs = specgen.f_plain(tier, seed)
+    # the '+=' / '<<=' decision also depends on flattening a contracted rank into one loop: a few F-occ members
+    specs += [s for s in specgen.f_occ(tier, seed) if "/flat(" in s["name"]]
     res = runner.pmap(work, specs)
     ok = [r for r in res if r["status"] == "ok"]
     cov = {
